@@ -221,6 +221,8 @@ def gen_ops(rng, backend, A):
     for _ in range(rng.randint(1, 5)):
         k = rng.choice(kinds)
         invalid = rng.random() < 0.15
+        # (dtypes of names that no longer exist must not survive: a later rename could bring such a name back)
+        dtypes = {n: d for n, d in dtypes.items() if n in cols or n in idx}
         free = [n for n in NAMES if n not in cols and n not in idx]
         if k == "add":
             pick = rng.sample(free, min(len(free), rng.randint(1, 2))) if (free and rng.random() < 0.85) else \
